@@ -84,6 +84,7 @@ type Options struct {
 	MaxDepth int
 	Fallbacks []string
 	FallbackMs int
+	RLimit int
 }
 
 func loadProgram(opt *Options) (*ssa.Program, []*ssa.Package, error) {
@@ -209,6 +210,9 @@ func runUnit(sh *Shared, fn *ssa.Function, opt *Options) (res UnitResult) {
 	res.Unit = fn.Name()
 	tt := cloneTable(sh.baseTT)
 	solver, err := NewSolver(tt, opt.Solver, opt.QTimeout)
+	if err == nil && opt.RLimit > 0 && strings.HasPrefix(opt.Solver, "z3") {
+		solver.send(fmt.Sprintf("(set-option :rlimit %d)", opt.RLimit))
+	}
 	if err != nil {
 		res.Internal = err.Error()
 		return
@@ -251,6 +255,9 @@ func runUnit(sh *Shared, fn *ssa.Function, opt *Options) (res UnitResult) {
 	totalSteps := int64(0)
 	for {
 		stop := it.runPath(fn, &res)
+		if ex.Truncated == "time budget reached" {
+			stop = true
+		}
 		totalSteps += it.steps
 		res.Switches += it.sched.Switches
 		if stop {
@@ -279,6 +286,9 @@ func (it *Interp) runPath(fn *ssa.Function, res *UnitResult) (stop bool) {
 	it.onceDone = nil
 	it.mainDeferFr = nil
 	it.sched = newSched(it)
+	it.callStack = nil
+	it.ex.UserChoices = nil
+	it.panicStack = nil
 	defer func() {
 		it.sched.shutdown()
 		if r := recover(); r != nil {
@@ -291,12 +301,22 @@ func (it *Interp) runPath(fn *ssa.Function, res *UnitResult) (stop bool) {
 				res.Unsupported = e.why
 				stop = true
 			case *guestPanic:
+				n0 := len(it.ex.Violations)
 				it.ex.report("panic", e.site, e.kind+": "+e.msg)
-				it.ex.Violations[len(it.ex.Violations)-1].Key = "panic|" + e.key
+				if len(it.ex.Violations) > n0 {
+					it.ex.Violations[n0].Key = "panic|" + e.key
+					it.ex.Violations[n0].Stack = it.panicStack
+				}
 			case runtime.Error:
+				if os.Getenv("SYMGO_DEBUG") != "" {
+					fmt.Fprintf(os.Stderr, "ENGINE PANIC %v\n%s\nGUEST STACK:\n%s\n", r, debug.Stack(), strings.Join(it.panicStack, "\n"))
+				}
 				res.Unsupported = "engine: " + e.Error() + " @ " + engineSite()
 				stop = true
 			default:
+				if os.Getenv("SYMGO_DEBUG") != "" {
+					fmt.Fprintf(os.Stderr, "ENGINE PANIC %v\n%s\n", r, debug.Stack())
+				}
 				res.Unsupported = fmt.Sprintf("engine: %v @ %s", r, engineSite())
 				stop = true
 			}
@@ -338,6 +358,7 @@ func main() {
 	fs.StringVar(&opt.Out, "out", "", "")
 	fs.BoolVar(&opt.Verbose, "v", false, "")
 	fs.IntVar(&opt.MaxDepth, "maxdepth", 400, "")
+	fs.IntVar(&opt.RLimit, "rlimit", 0, "z3 resource limit per query (deterministic unknowns)")
 	var fallbacks string
 	fs.StringVar(&fallbacks, "fallback", "z3-new,cvc5-int", "solvers tried when the primary answers unknown")
 	fs.IntVar(&opt.FallbackMs, "fbtimeout", 60000, "fallback per-query ms")
@@ -462,6 +483,7 @@ func doEnum(prog *ssa.Program, targets []*ssa.Package) {
 		Pkg, Name           string
 		Decode, Serialize   bool
 		NextLayerType, CanDecode bool
+		DecodeSig, SerializeSig string
 	}
 	var out []ent
 	for _, p := range targets {
@@ -479,8 +501,10 @@ func doEnum(prog *ssa.Program, targets []*ssa.Package) {
 				switch ms.At(i).Obj().Name() {
 				case "DecodeFromBytes":
 					e.Decode = true
+					e.DecodeSig = ms.At(i).Type().String()
 				case "SerializeTo":
 					e.Serialize = true
+					e.SerializeSig = ms.At(i).Type().String()
 				case "NextLayerType":
 					e.NextLayerType = true
 				case "CanDecode":
